@@ -29,7 +29,7 @@ def run_futures(events, cfg, symbols):
             return
         c('session_state_comparisons')
         wallet = acct['assets'].get('USDT')
-        if wallet is not None and not models.close_enough(wallet, mdl.wallet):
+        if wallet is not None and abs(wallet - float(mdl.wallet)) > 1e-9 * max(1.0, abs(wallet), cfg['starting_balance']):
             v('wallet_differs', f'{tag}: wallet {wallet} model {float(mdl.wallet)}', ev)
         pos, sym = ev.get('pos'), ev.get('symbol')
         if pos and sym in mdl.qty:
@@ -95,7 +95,7 @@ def run_spot(events, cfg, symbols):
         if q is not None:
             if q < 0:
                 v('negative_quote_balance', f'{tag}: quote {q}', ev)
-            if not models.close_enough(q, mdl.quote):
+            if abs(q - float(mdl.quote)) > 1e-9 * max(1.0, abs(q), cfg['starting_balance']):
                 v('quote_balance_differs', f'{tag}: quote {q} model {float(mdl.quote)}', ev)
         for s in symbols:
             b = acct['assets'].get(s.split('-')[0])
